@@ -88,7 +88,7 @@ pub fn ix_user_account(ix: &Ix) -> Option<Pubkey> {
     let idx = match ix.tag {
         "deposit" | "repay" | "withdraw" | "borrow" | "close_balance" | "withdraw_emissions"
         | "withdraw_emissions_permissionless" | "set_freeze" | "purge_deleverage_balance"
-        | "solend_deposit" => 1,
+        | "solend_deposit" | "solend_withdraw" | "kamino_deposit" | "kamino_withdraw" | "drift_deposit" | "drift_withdraw" => 1,
         "start_flashloan" | "end_flashloan" | "account_close" | "pulse_health"
         | "start_liquidation" | "end_liquidation" | "start_deleverage" | "end_deleverage"
         | "settle_emissions" | "update_emissions_destination" | "init_liq_record" => 0,
@@ -102,7 +102,7 @@ pub fn ix_user_account(ix: &Ix) -> Option<Pubkey> {
 pub fn ix_bank(ix: &Ix) -> Option<Pubkey> {
     let idx = match ix.tag {
         "deposit" | "repay" | "withdraw" | "borrow" | "close_balance" | "withdraw_emissions"
-        | "purge_deleverage_balance" => 3,
+        | "purge_deleverage_balance" | "solend_deposit" | "solend_withdraw" | "kamino_deposit" | "kamino_withdraw" | "drift_deposit" | "drift_withdraw" => 3,
         "handle_bankruptcy" | "withdraw_emissions_permissionless" => 2,
         "accrue_interest" | "collect_bank_fees" | "withdraw_fees" | "withdraw_insurance"
         | "withdraw_fees_permissionless" | "update_fees_destination" | "close_bank"
@@ -114,6 +114,17 @@ pub fn ix_bank(ix: &Ix) -> Option<Pubkey> {
         _ => return None,
     };
     ix.accounts.get(idx).map(|m| m.pubkey)
+}
+
+/// A withdrawal of a position: the plain instruction or one of the venue-backed variants.
+pub fn is_withdraw(tag: &str) -> bool {
+    matches!(tag, "withdraw" | "solend_withdraw" | "kamino_withdraw" | "drift_withdraw")
+}
+pub fn is_venue_deposit(tag: &str) -> bool {
+    matches!(tag, "solend_deposit" | "kamino_deposit" | "drift_deposit")
+}
+pub fn is_venue_withdraw(tag: &str) -> bool {
+    matches!(tag, "solend_withdraw" | "kamino_withdraw" | "drift_withdraw")
 }
 
 pub fn slot_of<'a>(a: &'a MarginfiAccount, bank: &Pubkey) -> Option<&'a Balance> {
